@@ -1317,9 +1317,10 @@ impl Vm {
         let closure = self.new_root_obj_closure(function.as_gc(), module);
         self.push(Value::ObjClosure(closure.as_gc()));
 
+        // Seed the new module's built-ins by its own path, before its body is called: if the call
+        // fails (frame limit) the active module is still the importer, whose globals must stay.
+        self.init_built_in_globals(&path);
         self.call_value(self.peek(0), 0)?;
-        let active_module_path = self.active_module.borrow().path;
-        self.init_built_in_globals(&active_module_path);
         Ok(())
     }
 
